@@ -43,6 +43,10 @@ type c16Case struct {
 	// to fail and it is aborted, as the engine does after a failed Close. While a
 	// doomed writer is open its name is not forced on another CreateFile.
 	Misuse bool `json:"misuse,omitempty"`
+	// Root: the store's root directory below the case's temp dir (the root is
+	// whatever path the user configured: its components may themselves look like
+	// the store's own file names)
+	Root string `json:"root,omitempty"`
 }
 
 var c16Names = []string{"bloom-A", "bloom-B", "bloom-C"}
@@ -52,6 +56,9 @@ func genC16() *rapid.Generator[c16Case] {
 		n := rapid.IntRange(3, 25).Draw(t, "nops")
 		var c c16Case
 		c.Misuse = chance(t, "misuse", 25)
+		if chance(t, "oddroot", 35) {
+			c.Root = pick(t, "root", []string{"index.data", "backup.dat/store", "x.dat", "old.tmp/a", "a.dat.tmp", ".dat", "d.tmp.dat/e"})
+		}
 		if c.Misuse && rapid.Bool().Draw(t, "misuseprefix") {
 			// a writer whose pointer is tombstoned mid-write, then closed (the Close
 			// fails and the writer is aborted), followed by ordinary traffic
@@ -178,6 +185,14 @@ func runC16(c c16Case) *Violation {
 		return nil
 	}
 	defer os.RemoveAll(dir)
+	if c.Root != "" {
+		dir = filepath.Join(dir, filepath.FromSlash(c.Root))
+		if err := os.MkdirAll(dir, 0o755); err != nil {
+			infra("mkdir: %v", err)
+			return nil
+		}
+		Ev.Class("root-directory-path-contains-.dat-or-.tmp")
+	}
 	fs := bs.NewFileSystemDataStore(dir)
 	var drawMu sync.Mutex
 	var queue []string
@@ -420,6 +435,11 @@ func runC16(c c16Case) *Violation {
 				}
 				doomedNames[strings.TrimSuffix(filepath.Base(p), ".dat")] = true
 				Ev.Class("tombstone-of-open-writer(misuse)")
+				for _, suffix := range []string{".dat", ".tmp"} {
+					if _, err := os.Stat(strings.TrimSuffix(p, ".dat") + suffix); err == nil {
+						return violf("%s: after TombstoneFile (of a pointer whose writer is still open) an artefact %s of the pointer remains", desc, filepath.Base(strings.TrimSuffix(p, ".dat")+suffix))
+					}
+				}
 				if v := verify(desc); v != nil {
 					return v
 				}
@@ -561,7 +581,7 @@ func runC16(c c16Case) *Violation {
 }
 
 func TestC16(t *testing.T) {
-	Ev.Rule = "case = 3-25 operations over up to 4 simultaneously open writers of one FileSystemDataStore in a temp dir: CreateFile with the candidate names forced from a 3-name pool through the verif hook (then fresh names), chunked Write of a complete / partial valid bloom file, of garbage or of nothing, Close, Abort, TombstoneFile of any earlier pointer whose writer has ended (as the engine does, including after another writer re-used the name), OpenFile, directory scan, a Close made to fail before publishing (its .tmp removed) whose owner aborts and tombstones only later, redundant Close/Abort/Write calls on a writer whose Close already succeeded (documented as harmless), and bursts of 2-6 parallel CreateFile calls on the same forced names. Oracle: model map path -> open / closed(bytes) / gone; after EVERY operation: every non-empty .dat on disk is a closed file, every closed file has exactly the bytes written, no open writer's file is visible, CreateFile never returns a live pointer, parallel CreateFiles return distinct pointers, OpenFile returns the exact bytes, TombstoneFile leaves no .dat/.tmp of its pointer, GetMaybeFilesForQuery(nil) lists exactly the closed valid bloom files. Non-trivial: a forced name collided with a live (open or closed) file; distinct by case."
+	Ev.Rule = "case = 3-25 operations over up to 4 simultaneously open writers of one FileSystemDataStore in a temp dir (in a third of the cases rooted at a sub-directory whose path itself contains .dat / .tmp components, e.g. backup.dat/store): CreateFile with the candidate names forced from a 3-name pool through the verif hook (then fresh names), chunked Write of a complete / partial valid bloom file, of garbage or of nothing, Close, Abort, TombstoneFile of any earlier pointer whose writer has ended (as the engine does, including after another writer re-used the name), OpenFile, directory scan, a Close made to fail before publishing (its .tmp removed) whose owner aborts and tombstones only later, redundant Close/Abort/Write calls on a writer whose Close already succeeded (documented as harmless), and bursts of 2-6 parallel CreateFile calls on the same forced names. Oracle: model map path -> open / closed(bytes) / gone; after EVERY operation: every non-empty .dat on disk is a closed file, every closed file has exactly the bytes written, no open writer's file is visible, CreateFile never returns a live pointer, parallel CreateFiles return distinct pointers, OpenFile returns the exact bytes, TombstoneFile leaves no .dat/.tmp of its pointer, GetMaybeFilesForQuery(nil) lists exactly the closed valid bloom files. Non-trivial: a forced name collided with a live (open or closed) file; distinct by case."
 	Ev.Assumptions = []string{"call sequences respect the DataStore contract the engine itself follows (one goroutine per writer, Close or Abort ends it, TombstoneFile only after the writer ended)", "a Close that fails is allowed; the file is then treated as never published"}
 	runChecks(t, "ops", 500, 100000, genC16(), runC16)
 }
